@@ -208,6 +208,7 @@ type EnvNested struct {
 	C   EnvShadowBefore
 	P   *ZMid
 	PP  **ZA
+	PM  *map[string]int
 	M   map[string]ZA
 	MI  map[int]string
 	MS  map[ZMyStr]int
